@@ -308,7 +308,7 @@ class C06(PropBase):
             "in each of the three rule positions (.cfa, .ra, a general register) x 6 environments (L=3 quick, 4 thorough on a "
             "sub-grid); random programs to length 24; random delta-record sets around the lookup address incl. duplicate "
             "addresses; rule-isolation pairs (two or three general-register rules per walk); tab / form-feed / repeated separators, 2400-token programs and "
-            "650-character tokens; malformed texts (tokens in front of the first label, lone / double labels); per-architecture expression grids (alias spellings, partial validity sets, a MIPS slot above 2^32) and beyond-32-bit dereferences for (B). Non-trivial = the walk succeeded (Some). distinct = distinct case lines")
+            "650-character tokens; malformed texts (tokens in front of the first label, lone / double labels); stack memories without a range; per-architecture expression grids (alias spellings, partial validity sets, a MIPS slot above 2^32) and beyond-32-bit dereferences for (B). Non-trivial = the walk succeeded (Some). distinct = distinct case lines")
     trusted_base = [
         "Coq 8.16.1 kernel (vm_compute only in Examples / witness lemmas)",
         "translate/c06_cfi_ops.py (Rust subset -> Gen/CfiOps.v: operator arms, default chain, label chain, walk skeleton, record selection, Register widths of the ARM / MIPS contexts; pins of parse_cfi_exprs' commit code, CfiReg / CfiRules / StackInfoCfi derives, StackInfoCfi::memory_range, CfiStackWalker's nine FrameWalker callbacks, Mips32Context, CONTEXT_ARM::register_is_valid), translate/unwind_consts.py (register tables) and translate/c08_tables.py (memory_range, into_rangemap_safe, range-map: the record table of C06/FileTable.v is C08's generated one)",
@@ -321,7 +321,7 @@ class C06(PropBase):
                 "wrapping_div/rem by zero), the result does not depend on the order in which non-.cfa/.ra rules are applied when targets do not alias, each documented "
                 "failure makes exactly its rule fail (mandatory rule -> None, other register -> cleared), a whole unwind step (INIT + delta records, lookup address) equals "
                 "an independent transcription of the documented semantics for the abstract walker and for CfiStackWalker on every architecture table (c06_refines_spec, "
-                "c06_real_walker_refines_spec); the extracted walk_stack entry point for x86/amd64/arm64/arm/mips/mips64 equals that documented result followed by the per-architecture hand-over (c06_real_end_to_end; tables well-formed and computed from the generated constants, c06_arch_tables_wellformed); several INIT records in one file go through C08's generated record table: never a panic, a lookup returns only a record of the file that covers the address, an isolated record is always found, of overlapping records the smallest (start, end) key wins (c06_file_table, c06_file_walk, c06_overlap_first_key_wins, c06_file_refines_spec), re-tokenising the kept substring yields the model's token lists (c06_retokenise), record selection = the delta records at or below the lookup address in (address, text) order (c06_selection_spec), declarative specs of the tokenizer and of decimal literals (c06_tokenizer_spec, c06_literal_spec), aliasing targets of the real walker: the greatest register name decides (c06_real_alias_last_name_wins). The evaluator these theorems speak about is "
+                "c06_real_walker_refines_spec); the extracted walk_stack entry point for x86/amd64/arm64/arm/mips/mips64 equals that documented result followed by the per-architecture hand-over (c06_real_end_to_end; tables well-formed and computed from the generated constants, c06_arch_tables_wellformed); several INIT records in one file go through C08's generated record table: never a panic, a lookup returns only a record of the file that covers the address, an isolated record is always found, of overlapping records the smallest (start, end) key wins, records without a range (size 0, end beyond u64) are invisible, file order is irrelevant when ranges differ (c06_file_table, c06_file_walk, c06_overlap_first_key_wins, c06_file_refines_spec, c06_rangeless_records_invisible, c06_file_order_irrelevant); walk_stack's stack-memory precondition is in the model (c06_no_stack_no_frame), re-tokenising the kept substring yields the model's token lists (c06_retokenise), record selection = the delta records at or below the lookup address in (address, text) order (c06_selection_spec), declarative specs of the tokenizer and of decimal literals (c06_tokenizer_spec, c06_literal_spec), aliasing targets of the real walker: the greatest register name decides (c06_real_alias_last_name_wins). The evaluator these theorems speak about is "
                 "REGENERATED from walker.rs / mod.rs / parser.rs on every run (Gen/CfiOps.v: operator arms as statement lists, default chain, label chain, walk skeleton, "
                 "record selection) and proved equal to the hand model (c06_gen_model_is_model, c06_gen_*); the architecture tables are those of Gen/UnwindConsts.v "
                 "(c06_arch_tables_pinned). The extracted generated model is compared with the code on exhaustive short programs in every rule position, rule-isolation "
